@@ -321,7 +321,11 @@ class WorldJob(object):
             # failure at all (it may still stop later, at a file that really fails).  Such a run is held to exactly what a
             # fault-free run is held to; only if it does not pass as one is it judged as a run that failed at the fault.
             nv = len(self.violations)
-            info = self.judge(pre, dict(rec, fired=[]), post, env, run_desc, faulty=False, ignore=ignore)
+            self._trial = True           # only "does it pass?" matters: the costly search for an explanation is skipped
+            try:
+                info = self.judge(pre, dict(rec, fired=[]), post, env, run_desc, faulty=False, ignore=ignore)
+            finally:
+                self._trial = False
             if len(self.violations) == nv:
                 self.probe('transient_fault_absorbed_by_retry')
                 return info
@@ -529,7 +533,7 @@ class WorldJob(object):
                 continue
             if rel in visited_sinks:
                 # a completed visit left something else than the model says
-                hit = self.alt_search(pre_f, rel, got, visits, mode, force, out_rel)
+                hit = None if getattr(self, '_trial', False) else self.alt_search(pre_f, rel, got, visits, mode, force, out_rel)
                 if not faulty:
                     self.vio('C13', 'S1', '%s holds %s after %d visit(s); the API with the documented option values gives %s' % (
                         rel, _b(got, 60), len(visited_sinks[rel]), _b(want, 60)), run_desc, key={'mode': mode}, alt_options=hit)
